@@ -6,7 +6,8 @@ Extracted with `ast` only (shapes are matched strictly; anything else raises Unt
   IGNORED_HEADERS = {<str>, ...}                               -> ignoredHeaders (sorted)
   valid_search_headers / valid_advertisement_headers / valid_byebye_headers:
       <name> = headers.get_lower(<key>[, ""]) ... return bool(a and b and ... and location.startswith(<p>)
-      and not (<needle> in location or ...))                   -> required header names, prefix, needles
+      and is_usable_location(location))                        -> required header names
+  is_usable_location: whole source text, the startswith prefix, the scheme tuple, the loopback name  -> usable*
   same_headers_differ: the skip test `(lower_header != "" and lower_header[0] == "_") or lower_header in IGNORED_HEADERS`
                                                                -> privatePrefix
   purge tests: `now > device.valid_to`, `now > valid_to`, `self.next_valid_to > now` (strictness of the comparisons)
@@ -71,6 +72,13 @@ def _valid_fn(mod: ast.Module, fname: str):
         raise Untranslatable(f"{fname}: return bool(a and b ...) expected")
     required, prefix, needles = [], None, []
     for v in ret.args[0].values:
+        if isinstance(v, ast.Call) and isinstance(v.func, ast.Name) and v.func.id == "is_usable_location" \
+                and len(v.args) == 1 and isinstance(v.args[0], ast.Name) and var2hdr.get(v.args[0].id) == "location" \
+                and not v.keywords:
+            if prefix is not None:
+                raise Untranslatable(f"{fname}: two location tests")
+            prefix = "<is_usable_location>"
+            continue
         if isinstance(v, ast.Name):
             if v.id not in var2hdr:
                 raise Untranslatable(f"{fname}: unknown name {v.id}")
@@ -90,6 +98,27 @@ def _valid_fn(mod: ast.Module, fname: str):
         else:
             raise Untranslatable(f"{fname}: unexpected conjunct {ast.dump(v)[:120]}")
     return required, prefix, needles
+
+
+def _usable_location(mod: ast.Module):
+    """is_usable_location: (source text without docstring, startswith prefix, accepted schemes, loopback names)"""
+    fn = _func(mod, "is_usable_location")
+    body = [st for st in fn.body if not (isinstance(st, ast.Expr) and isinstance(st.value, ast.Constant))]
+    src = "\n".join(ast.unparse(st) for st in body)
+    prefix, schemes, names = None, None, []
+    for node in ast.walk(fn):
+        if isinstance(node, ast.Call) and isinstance(node.func, ast.Attribute) and node.func.attr == "startswith" \
+                and len(node.args) == 1:
+            prefix = _str(node.args[0], "is_usable_location")
+        if isinstance(node, ast.Compare) and len(node.ops) == 1 and isinstance(node.ops[0], ast.NotIn) \
+                and ast.unparse(node.left) == "parts.scheme" and isinstance(node.comparators[0], ast.Tuple):
+            schemes = [_str(e, "is_usable_location") for e in node.comparators[0].elts]
+        if isinstance(node, ast.Compare) and len(node.ops) == 1 and isinstance(node.ops[0], ast.Eq) \
+                and ast.unparse(node.left) == "hostname":
+            names.append(_str(node.comparators[0], "is_usable_location"))
+    if prefix is None or schemes is None:
+        raise Untranslatable("is_usable_location: startswith(...) / parts.scheme not in (...) not found")
+    return src, prefix, schemes, names
 
 
 def _skip_test(mod: ast.Module) -> str:
@@ -190,8 +219,9 @@ def gen(repo: Path) -> str:
     s_req, s_pre, s_needles = _valid_fn(mod, "valid_search_headers")
     a_req, a_pre, a_needles = _valid_fn(mod, "valid_advertisement_headers")
     b_req, b_pre, b_needles = _valid_fn(mod, "valid_byebye_headers")
-    if s_pre is None or a_pre is None:
-        raise Untranslatable("valid_*_headers: location.startswith(...) missing")
+    if s_pre != "<is_usable_location>" or a_pre != "<is_usable_location>" or s_needles or a_needles:
+        raise Untranslatable("valid_*_headers: the location test is not is_usable_location(location)")
+    u_src, u_prefix, u_schemes, u_names = _usable_location(mod)
     priv = _skip_test(mod)
     tests = _purge_tests(mod)
     order = _see_device_order(mod)
@@ -207,11 +237,12 @@ def gen(repo: Path) -> str:
     out += f"def ignoredHeaders : List String := {sl(ignored)}\n"
     out += f"def privatePrefix : String := {lean_str(priv)}\n"
     out += f"def searchRequired : List String := {sl(s_req)}\n"
-    out += f"def searchLocationPrefix : String := {lean_str(s_pre)}\n"
-    out += f"def searchBadNeedles : List String := {sl(s_needles)}\n"
+    out += f"def usableLocationSrc : String := {lean_str(u_src)}\n"
+    out += f"def usablePrefix : String := {lean_str(u_prefix)}\n"
+    out += f"def usableSchemes : List String := {sl(u_schemes)}\n"
+    out += f"def usableLoopbackNames : List String := {sl(u_names)}\n"
     out += f"def advRequired : List String := {sl(a_req)}\n"
-    out += f"def advLocationPrefix : String := {lean_str(a_pre)}\n"
-    out += f"def advBadNeedles : List String := {sl(a_needles)}\n"
+
     out += f"def byebyeRequired : List String := {sl(b_req)}\n"
     out += f"def byebyeLocationPrefix : Option String := {'none' if b_pre is None else 'some ' + lean_str(b_pre)}\n"
     out += f"def byebyeBadNeedles : List String := {sl(b_needles)}\n"
